@@ -391,6 +391,19 @@ def run_kernel(ctx):
             i += 1
             if ctx.mine(i):
                 run_case(ctx, old, op, "none", None, ("k",))
+    # existing queries in every odd SHAPE: ending / starting with a separator-like character, bare flags, blank values, empty pieces
+    for old in ("a=1;", "a=1&", "&a=1", "a=1&&b=2", "a", "a&b", "=", "a=;b", ";", "a=1=", "a==", "a=1+", "+", "a=%26;", "a=1;b=2", "b;", "a=1?", "a=1/", "a=1%3B", "flag&a=1", "a=1&flag"):
+        for new in ([("c", "n0")], [("a", "n0")], [("c", "n0"), ("d", "n1")], []):
+            for op in ("with_query", "extend_query", "update_query", "mod"):
+                for form in ("str", "dict", "list", "kwargs", "mdict"):
+                    i += 1
+                    if not ctx.mine(i) or (op == "mod" and form == "kwargs"):
+                        continue
+                    run_case(ctx, old, op, form, build_arg(form, new), ("k-odd",))
+        for keys in (["a"], ["b"], ["flag"], ["zz"]):
+            i += 1
+            if ctx.mine(i):
+                run_case(ctx, old, "without_query_params", "args", tuple(keys), ("k-odd",))
     # several keys replaced at once over an existing query with surplus duplicates (deterministic trigger of D22)
     if ctx.shard == 0:
         for old in ("d=o0&d=o1&a=o2&a=o3", "a=o0&a=o1&a=o2&b=o3&b=o4&c=o5", "b=o0&a=o1&b=o2&a=o3&b=o4"):
